@@ -15,10 +15,10 @@ VARIABLE l
 tvars == <<vars, l>>
 Ev == Log[l]
 
-TStart == /\ Ev.a = "Start" /\ cf' = Ev.cf /\ Started(Ev.cf)
+TStart == /\ Ev.a = "Start" /\ Ev.cf.ok = 1 /\ cf' = Ev.cf /\ Started(Ev.cf)
 
 \* the search went on until step Ev.n (ScanStep repeated), where the last run-in bit was clocked in
-TCri == /\ Ev.a = "Cri" /\ pc \in {"pro", "scan"} /\ Ev.n < C.scan /\ (pc = "scan" => Ev.n >= n)
+TCri == /\ Ev.a = "Cri" /\ pc \in {"pro", "scan"} /\ Ev.n < Steps(C) /\ (pc = "scan" => Ev.n >= n)
         /\ pc' = "scan" /\ n' = Ev.n
         /\ lo' = ByteLo(C, ScanFirst(C, Ev.n)) /\ hi' = ByteHi(C, ScanLast(C, Ev.n))
         /\ UNCHANGED <<cf, k, w>>
